@@ -1,4 +1,5 @@
 import OsacaVerif.Driver.C07
+import OsacaVerif.Driver.Roles
 import OsacaVerif.Driver.Pipeline
 import OsacaVerif.Model.EndToEnd
 import OsacaVerif.Gen.IsaDb_x86
@@ -12,7 +13,7 @@ import OsacaVerif.Gen.IsaDb_x86
   instruction_forms, load/store tables, defaults, multipliers, load_latency); the ISA database is the
   generated `Gen.isaDbX86` (tied to `isa/x86.yml` by C03's `rolesdbcmp`).
 
-  Reply: `parse-error <line>` | `sem-error <line>` | `badisa` | `raise` | `badlines` | `empty` |
+  Reply: `parse-error <line>` | `sem-error <line> <exception class>` | `badisa` | `raise` | `badlines` | `empty` |
   `load-error` | the sections of `pipe.run` followed by
       ` flags=<line>:<flag>,<flag>…|…  used=<line>:<mask>|…  report=<text>`.
 
@@ -122,7 +123,8 @@ def handle (r : Req) : Option String :=
           match analyseX86 m o (field text) with
           | .ok res => Driver.Pipeline.showAnalysis res.analysis ++ showExtra res
           | .parseError n _ => "parse-error " ++ toString n
-          | .semError n _ => "sem-error " ++ toString n
+          | .semError n (.tplt e) => "sem-error " ++ toString n ++ " " ++ Driver.C07.errName e
+          | .semError n (.changes e) => "sem-error " ++ toString n ++ " " ++ Driver.Roles.errS e
           | .badIsa => "badisa"
           | .raised => "raise"
           | .badLines => "badlines"
